@@ -1568,7 +1568,7 @@ def run(ck):
     ]
     rng = ck.rng
     scns = fixed_scenarios(thorough)
-    for _ in range(ck.n(18, 240)):
+    for _ in range(ck.n(16, 240)):
         scns.append(gen_scenario(rng, rng.randint(8, 18), big=thorough and rng.random() < 0.1))
     cap = ck.n(40, 512)
     max_points = ck.n(14, 400)
